@@ -74,6 +74,9 @@ type Conn struct {
 	reads   int64
 	// WriteErr, when set, is returned by Write.
 	WriteErr error
+	// stalled: the client is not reading (Write blocks); writeBlocked: the server side is blocked in Write right now
+	stalled      bool
+	writeBlocked bool
 }
 
 // NewConn makes a connection with the given remote address.
@@ -126,10 +129,52 @@ func (c *Conn) Read(p []byte) (int, error) {
 	return n, nil
 }
 
+// StallWrites makes the client stop reading: from now on Write blocks (as it does once the peer's receive window and
+// the local send buffer are full) until ReleaseWrites or Close.
+func (c *Conn) StallWrites() {
+	c.mu.Lock()
+	c.stalled = true
+	c.mu.Unlock()
+}
+
+// ReleaseWrites lets blocked and future writes through again.
+func (c *Conn) ReleaseWrites() {
+	c.mu.Lock()
+	c.stalled = false
+	c.cond.Broadcast()
+	c.mu.Unlock()
+}
+
+// WaitSettled blocks until the server side is blocked in Write on a stalled connection, parked in Read with nothing
+// queued, or has closed the connection; ok=false on timeout.
+func (c *Conn) WaitSettled(d time.Duration) (writeBlocked, ok bool) {
+	done := make(chan bool, 1)
+	go func() {
+		c.mu.Lock()
+		defer c.mu.Unlock()
+		for !(c.closed || c.writeBlocked || (c.waiting && len(c.queue) == 0)) {
+			c.cond.Wait()
+		}
+		done <- c.writeBlocked
+	}()
+	select {
+	case wb := <-done:
+		return wb, true
+	case <-time.After(d):
+		return false, false
+	}
+}
+
 // Write logs and swallows the bytes.
 func (c *Conn) Write(p []byte) (int, error) {
 	c.mu.Lock()
 	defer c.mu.Unlock()
+	for c.stalled && !c.closed {
+		c.writeBlocked = true
+		c.cond.Broadcast()
+		c.cond.Wait()
+	}
+	c.writeBlocked = false
 	if c.closed {
 		return 0, net.ErrClosed
 	}
